@@ -7,6 +7,7 @@ import Rbgp.Rib.ObsLemmas
 import Rbgp.Rib.Lemmas
 import Rbgp.Rib.ObsFacts
 import Rbgp.Rib.Run
+import Rbgp.Rib.GoodDef
 namespace Rbgp.Rib
 open SpecC02
 
@@ -119,20 +120,25 @@ theorem leadingRun_eq_ecmpCount (fl : Flags) (t2 : Bool) (es : List Entry) (hok 
     · have := h1.mp h
       exact (h2.mpr this.symm).symm
 
+theorem ecmpIds_eq (fl : Flags) (t2 : Bool) (es : List Entry) (hok : ∀ e ∈ es, EntryOk e) :
+    ecmpIds fl t2 es = ((es.map Entry.ref).map (·.lpid)).take (leadingRun (es.map (specKey fl t2))) := by
+  rw [leadingRun_eq_ecmpCount fl t2 es hok, List.map_map, ← List.map_take]
+  rfl
+
 /-- **A ranked list of well-formed entries, reported as it is, passes the ranking check.** -/
 theorem checkRanking_ok {c : Case} {fl : Flags} {x : Ctx} (hx : FlagsAgree c fl x) (net : Net)
     (es : List Entry) (hs : Sorted (cmpFor fl net.t2) es) (hok : ∀ e ∈ es, EntryOk e)
     (hr : ∀ e ∈ es, EntryRef c e) (complete : Bool) :
     checkRanking x net (es.map fun e => (e.src.id, e.attr.id)) (es.map Entry.ref)
-      (ecmpCount fl net.t2 es) complete = none := by
+      (ecmpIds fl net.t2 es) complete = none := by
   have hids : (es.map Entry.ref).map (fun p => (p.src, p.attr)) = es.map fun e => (e.src.id, e.attr.id) := by
     rw [List.map_map]; rfl
   have hrk := ranked_of_sorted fl net.t2 hs hok
-  have hlr := leadingRun_eq_ecmpCount fl net.t2 es hok
+  have hlr := ecmpIds_eq fl net.t2 es hok
   have hm := mapM_key hx net.t2 es hr
   unfold checkRanking
   cases es with
-  | nil => simp [subMulti, ranked, leadingRun, ecmpCount]
+  | nil => simp [subMulti, ranked, leadingRun, ecmpIds, ecmpCount]
   | cons a l =>
     have hb := head_not_beaten fl net.t2 hs hok
     simp only [hids, hm, subMulti_refl, Bool.not_true, Bool.false_eq_true, if_false, Bool.and_false]
@@ -140,25 +146,7 @@ theorem checkRanking_ok {c : Case} {fl : Flags} {x : Ctx} (hx : FlagsAgree c fl 
     simp only [hb, hrk, hlr, List.isEmpty_cons, Bool.false_and, Bool.not_true, Bool.false_eq_true, if_false,
       bne_self_eq_false]
 
-end Rbgp.Rib
-
-namespace Rbgp.Rib
-open SpecC02
-
 /-! ## The spec's bookkeeping of next-hop reachability tracks the model's flags -/
-
-/-- every `Arc<Vec<Attribute>>` handed to `insert` is one of the case's attribute sets -/
-def Op.AttrRef (c : Case) : Op → Prop
-  | .insert _ _ _ _ _ attr _ _ => c.attrs[attr.id]? = some attr
-  | _ => True
-
-/-- a case the codec can produce: sources and attribute sets are referred to by their position -/
-structure Case.Good (c : Case) (g : Nat → Fam) : Prop where
-  wf : c.WFWith g
-  attrRef : ∀ op ∈ c.ops, op.AttrRef c
-
-def AttrRefInv (c : Case) (t : Table) : Prop :=
-  ∀ f n, ∀ e ∈ t.entries f n, c.attrs[e.attr.id]? = some e.attr
 
 def NhRel (t : Table) (m : NhMap) : Prop :=
   ∀ f n, ∀ e ∈ t.entries f n, nhGet (f, n, e.src.addr, e.rpid) m = some (e.nh, e.nhInv)
@@ -195,41 +183,23 @@ theorem nhGet_map_flip (k0 : Nat) (reach : Bool) (key : Fam × Net × Nat × Nat
       by_cases h2 : nh = some k0 <;> simp [nhGet, h2]
     · by_cases h2 : nh = some k0 <;> simp [nhGet, h, h2, ih]
 
-theorem obs_eq_limit (fl : Flags) (r : Res) : r.obs fl = .limit ↔ r = .limit := by
+theorem obs_eq_limit (sh : Nat) (fl : Flags) (r : Res) : r.obs sh fl = .limit ↔ r = .limit := by
   cases r with
   | removed c => cases c <;> simp [Res.obs]
   | _ => simp [Res.obs]
 
-theorem nhFlip_fields (k : Nat) (reach : Bool) (e : Entry) :
-    (nhFlip k reach e).src = e.src ∧ (nhFlip k reach e).rpid = e.rpid ∧ (nhFlip k reach e).nh = e.nh ∧
-    (nhFlip k reach e).attr = e.attr ∧
-    (nhFlip k reach e).nhInv = (if e.nh = some k then !reach else e.nhInv) := by
-  unfold nhFlip
-  by_cases h : e.nh = some k <;> simp [h]
-
-theorem attrRef_step {c : Case} {t t' : Table} {op : Op} {r : Res} (h : AttrRefInv c t)
-    (hop : op.AttrRef c) (hE : EntryFacts t op t' r) : AttrRefInv c t' := by
-  intro f n x hx
-  rcases hE.mem f n x hx with ⟨x0, hx0, rfl, _⟩ | ⟨hins, _⟩
-  · have := h f n x0 hx0
-    cases op <;> simp only [Op.flip] <;> try exact this
-    rw [(nhFlip_fields _ _ x0).2.2.2.1]; exact this
-  · cases op <;> simp only [Op.inserts] at hins
-    obtain ⟨_, _, _, _, _, _, ha, _⟩ := hins
-    rw [ha]; exact hop
-
-theorem nhRel_step {t t' : Table} {op : Op} {r : Res} (fl : Flags) {m : NhMap} (h : NhRel t m)
-    (hE : EntryFacts t op t' r) : NhRel t' (nhStep m op (r.obs fl)) := by
+theorem nhRel_step {t t' : Table} {op : Op} {r : Res} (sh : Nat) (fl : Flags) {m : NhMap} (h : NhRel t m)
+    (hE : EntryFacts t op t' r) : NhRel t' (nhStep m op (r.obs sh fl)) := by
   intro f n x hx
   cases op with
   | insert src fam net rpid nh attr filtered nhInv =>
     simp only [nhStep]
     by_cases hl : r = .limit
-    · rw [if_pos ((obs_eq_limit fl r).mpr hl)]
+    · rw [if_pos ((obs_eq_limit sh fl r).mpr hl)]
       have := hE.limit hl f n
       rw [this] at hx
       exact h f n x hx
-    · rw [if_neg (fun e => hl ((obs_eq_limit fl r).mp e))]
+    · rw [if_neg (fun e => hl ((obs_eq_limit sh fl r).mp e))]
       rcases hE.mem f n x hx with ⟨x0, hx0, hxe, hnr⟩ | ⟨hins, _⟩
       · rw [show x = x0 from hxe, nhGet_nhSet_ne]
         · exact h f n x0 hx0
@@ -351,8 +321,8 @@ theorem eligibleOf_entries (x : Ctx) (hx : x.c = c) (fl : Flags) (m : NhMap) (f 
   simp only [Function.comp, dentryOf, hx, hr e he, hn e he, Entry.eligible]
   by_cases h : (!e.filtered && !e.nhInv) = true <;> simp [h]
 
-theorem flagsAgree_stepObs (c : Case) (tr : Table × Res) :
-    FlagsAgree c tr.1.flags { c := c, stale := (stepObs c tr).stale, llgr := (stepObs c tr).llgr } where
+theorem flagsAgree_stepObs (c : Case) (op : Op) (tr : Table × Res) :
+    FlagsAgree c tr.1.flags { c := c, stale := (stepObs c op tr).stale, llgr := (stepObs c op tr).llgr } where
   case := rfl
   stale id h := by
     obtain ⟨t, r⟩ := tr
@@ -361,45 +331,51 @@ theorem flagsAgree_stepObs (c : Case) (tr : Table × Res) :
     obtain ⟨t, r⟩ := tr
     exact contains_sortOn_filter t.llgr c.srcs.length id h
 
-theorem find_famObs (t : Table) (f : Fam) :
-    (allFams.map (famObs t)).find? (fun fo => fo.fam = f) = some (famObs t f) := by
+theorem find_famObs (c : Case) (t : Table) (f : Fam) :
+    (allFams.map (famObs c t)).find? (fun fo => fo.fam = f) = some (famObs c t f) := by
   cases f <;> simp [allFams, famObs]
-
-def optList {α} : Option (List α) → List α
-  | some l => l
-  | none => []
 
 /-- the paths the observation lists for prefix (f, n) -/
 theorem lookup_dests {t : Table} (hinv : Inv c g t) (f : Fam) (n : Net) :
-    optList (lookupNet n (famObs t f).dests) = (t.entries f n).map (dentryOf t.flags) := by
+    optList (lookupNet n (famObs c t f).dests) = (t.entries f n).map (dentryOf t.flags) := by
   rw [lookupNet_eq_find, famObs_dests_find t f (hinv.rib f) n]
   unfold Table.entries
   cases alookup n (t.rib f).dests <;> rfl
 
 theorem checkChange_eq (x : Ctx) (m : NhMap) (fams : List FamObs) (ch : ChangeObs) (fo : FamObs)
-    (h : fams.find? (fun f => f.fam = ch.fam) = some fo) :
+    (h : fams.find? (fun f => f.fam = ch.fam) = some fo) (hb : ch.newBest = ch.paths.head?.map (·.lpid)) :
     checkChange x m fams ch =
       checkRanking x ch.net (eligibleOf x m ch.fam ch.net (optList (lookupNet ch.net fo.dests))) ch.paths ch.ecmp false := by
   unfold checkChange
   rw [h]
-  simp only
-  cases lookupNet ch.net fo.dests <;> rfl
+  simp only [hb, bne_self_eq_false, Bool.false_eq_true, if_false]
+
+theorem entries_srcRef {t : Table} (hinv : Inv c g t) (f : Fam) (n : Net) :
+    ∀ e ∈ t.entries f n, c.srcs[e.src.id]? = some e.src := by
+  intro e he
+  unfold Table.entries at he
+  cases hd : alookup n (t.rib f).dests with
+  | none => rw [hd] at he; simp at he
+  | some d => rw [hd] at he; exact ((entries_destInv hinv f n hd).srcOk e he).1
 
 theorem eligibleOf_obs {t : Table} (hinv : Inv c g t) {m : NhMap} (hnh : NhRel t m) (x : Ctx) (hx : x.c = c)
     (f : Fam) (n : Net) :
     eligibleOf x m f n ((t.entries f n).map (dentryOf t.flags)) =
       (t.elig f n).map fun e => (e.src.id, e.attr.id) := by
   rw [elig_eq_filter]
-  apply eligibleOf_entries x hx
-  · intro e he
-    unfold Table.entries at he
-    cases hd : alookup n (t.rib f).dests with
-    | none => rw [hd] at he; simp at he
-    | some d => rw [hd] at he; exact ((entries_destInv hinv f n hd).srcOk e he).1
-  · exact hnh f n
+  exact eligibleOf_entries x hx _ m f n _ (entries_srcRef hinv f n) (hnh f n)
 
-theorem mem_changesOf_obs {fl : Flags} {r : Res} {ch : ChangeObs} (h : ch ∈ changesOf (r.obs fl)) :
-    ∃ c0 ∈ r.chs, ch = c0.obs fl := by
+/-- the same for a sub-list of the prefix's paths selected by `q` -/
+theorem eligibleOf_obs_filter {t : Table} (hinv : Inv c g t) {m : NhMap} (hnh : NhRel t m) (x : Ctx) (hx : x.c = c)
+    (f : Fam) (n : Net) (q : Entry → Bool) :
+    eligibleOf x m f n (((t.entries f n).filter q).map (dentryOf t.flags)) =
+      (((t.entries f n).filter q).filter Entry.eligible).map fun e => (e.src.id, e.attr.id) :=
+  eligibleOf_entries x hx _ m f n _
+    (fun e he => entries_srcRef hinv f n e (List.mem_filter.mp he).1)
+    (fun e he => hnh f n e (List.mem_filter.mp he).1)
+
+theorem mem_changesOf_obs {sh : Nat} {fl : Flags} {r : Res} {ch : ChangeObs} (h : ch ∈ changesOf (r.obs sh fl)) :
+    ∃ c0 ∈ r.chs, ch = c0.obs sh fl := by
   cases r with
   | unit => simp [Res.obs, changesOf] at h
   | noChange => simp [Res.obs, changesOf] at h
@@ -414,91 +390,257 @@ theorem mem_changesOf_obs {fl : Flags} {r : Res} {ch : ChangeObs} (h : ch ∈ ch
     obtain ⟨c0, hc0, rfl⟩ := h
     exact ⟨c0, by simpa [Res.chs] using hc0, rfl⟩
 
-theorem checkChange_ok {t : Table} {r : Res} (hinv : Inv c g t) (ha : AttrRefInv c t) {m : NhMap}
+theorem checkChange_ok {t : Table} {op : Op} {r : Res} (hinv : Inv c g t) (ha : AttrRefInv c t) {m : NhMap}
     (hnh : NhRel t m) (hexact : ∀ ch ∈ r.chs, ch.paths = t.elig ch.fam ch.net)
-    {ch : ChangeObs} (hch : ch ∈ changesOf (r.obs t.flags)) :
-    checkChange { c := c, stale := (stepObs c (t, r)).stale, llgr := (stepObs c (t, r)).llgr } m
-      (stepObs c (t, r)).fams ch = none := by
+    {ch : ChangeObs} (hch : ch ∈ changesOf (r.obs c.shard t.flags)) :
+    checkChange { c := c, stale := (stepObs c op (t, r)).stale, llgr := (stepObs c op (t, r)).llgr } m
+      (stepObs c op (t, r)).fams ch = none := by
   obtain ⟨c0, hc0, rfl⟩ := mem_changesOf_obs hch
-  have hfa := flagsAgree_stepObs c (t, r)
-  rw [checkChange_eq _ _ _ _ _ (find_famObs t c0.fam)]
-  show checkRanking _ c0.net (eligibleOf _ m c0.fam c0.net (optList (lookupNet c0.net (famObs t c0.fam).dests)))
-    (c0.paths.map Entry.ref) (ecmpCount t.flags c0.net.t2 c0.paths) false = none
+  have hfa := flagsAgree_stepObs c op (t, r)
+  have hb : (c0.obs c.shard t.flags).newBest = (c0.obs c.shard t.flags).paths.head?.map (·.lpid) := by
+    simp only [Change.obs]
+    cases c0.paths <;> rfl
+  rw [checkChange_eq _ _ (stepObs c op (t, r)).fams _ _ (find_famObs c t c0.fam) hb]
+  show checkRanking _ c0.net (eligibleOf _ m c0.fam c0.net (optList (lookupNet c0.net (famObs c t c0.fam).dests)))
+    (c0.paths.map Entry.ref) (ecmpIds t.flags c0.net.t2 c0.paths) false = none
   rw [lookup_dests hinv, eligibleOf_obs hinv hnh _ rfl, hexact c0 hc0]
   exact checkRanking_ok hfa c0.net (t.elig c0.fam c0.net) (elig_sorted hinv _ _)
     (fun e he => (elig_ok hinv ha _ _ e he).1) (fun e he => (elig_ok hinv ha _ _ e he).2) false
 
-def famClause1 (x : Ctx) (m : NhMap) (fo : FamObs) (d : Net × List DEntry) : Option String :=
-  let elig := eligibleOf x m fo.fam d.1 d.2
-  match fo.loc.find? (fun l => l.net = d.1) with
-  | some l => checkRanking x d.1 elig l.paths l.ecmp true
-  | none => if elig.isEmpty then none else some "eligible-path-missing"
+/-! ### the clauses of `checkFam` -/
 
-def famClause2 (fo : FamObs) (l : LocObs) : Option String :=
-  if (lookupNet l.net fo.dests).isNone then some "ineligible-path-selected" else
-  match lookupNet l.net fo.lim2 with
-  | some ids => if ids = (l.paths.map (·.lpid)).take 2 then none else some "addpath-list-not-a-prefix"
-  | none => some "addpath-list-not-a-prefix"
+/-- what `checkFam`'s clauses need to know about one destination of the dump -/
+structure DumpDest (t : Table) (f : Fam) (d : Net × List DEntry) : Prop where
+  ent : d.2 = (t.entries f d.1).map (dentryOf t.flags)
+  dest : ∃ dst, alookup d.1 (t.rib f).dests = some dst
 
-theorem checkFam_eq (x : Ctx) (m : NhMap) (fo : FamObs) :
-    checkFam x m fo = (firstSome (famClause1 x m fo) fo.dests).orElse fun _ => firstSome (famClause2 fo) fo.loc := rfl
+theorem dumpDest_of_mem {t : Table} (hinv : Inv c g t) (f : Fam) {d : Net × List DEntry}
+    (hd : d ∈ (famObs c t f).dests) : DumpDest t f d := by
+  obtain ⟨nd, hnd, rfl⟩ := (famObs_dests_mem t f (hinv.rib f)).mp hd
+  have hlk : alookup nd.1 (t.rib f).dests = some nd.2 := alookup_of_mem (hinv.rib f).keys hnd
+  exact ⟨by simp only [Table.entries, hlk], nd.2, hlk⟩
 
-theorem checkFam_ok {t : Table} (r : Res) (hinv : Inv c g t) (ha : AttrRefInv c t) {m : NhMap}
-    (hnh : NhRel t m) (f : Fam) :
-    checkFam { c := c, stale := (stepObs c (t, r)).stale, llgr := (stepObs c (t, r)).llgr } m (famObs t f) = none := by
-  have hfa := flagsAgree_stepObs c (t, r)
+theorem clauseDest_ok {t : Table} {op : Op} (r : Res) (hinv : Inv c g t) (ha : AttrRefInv c t) {m : NhMap}
+    (hnh : NhRel t m) (f : Fam) {d : Net × List DEntry} (hd : d ∈ (famObs c t f).dests) :
+    clauseDest { c := c, stale := (stepObs c op (t, r)).stale, llgr := (stepObs c op (t, r)).llgr } m (famObs c t f) d
+      = none := by
+  have hfa := flagsAgree_stepObs c op (t, r)
+  obtain ⟨hent, dst, hlk⟩ := dumpDest_of_mem hinv f hd
+  unfold clauseDest
+  show (match (famObs c t f).loc.find? (fun l => l.net = d.1) with
+    | some l => checkRanking _ d.1 (eligibleOf _ m f d.1 d.2) l.paths l.ecmp true
+    | none => if (eligibleOf _ m f d.1 d.2).isEmpty then none else some "eligible-path-missing") = none
+  rw [hent, eligibleOf_obs hinv hnh _ rfl, famObs_loc_find t f (hinv.rib f) d.1]
+  by_cases he : (t.elig f d.1).isEmpty = true
+  · simp [he]
+  · have hid : t.destId f d.1 = some dst.id := by unfold Table.destId; rw [hlk]; rfl
+    rw [if_neg he, hid]
+    exact checkRanking_ok hfa d.1 (t.elig f d.1) (elig_sorted hinv _ _)
+      (fun e he => (elig_ok hinv ha _ _ e he).1) (fun e he => (elig_ok hinv ha _ _ e he).2) true
+
+theorem clauseLoc_ok {t : Table} (hinv : Inv c g t) (f : Fam) {l : LocObs} (hl : l ∈ (famObs c t f).loc) :
+    clauseLoc (famObs c t f) l = none := by
   have hrib := hinv.rib f
-  rw [checkFam_eq]
-  have h1 : firstSome (famClause1 { c := c, stale := (stepObs c (t, r)).stale, llgr := (stepObs c (t, r)).llgr } m
-      (famObs t f)) (famObs t f).dests = none := by
-    apply firstSome_none
-    intro d hd
-    obtain ⟨nd, hnd, rfl⟩ := (famObs_dests_mem t f hrib).mp hd
-    have hlk : alookup nd.1 (t.rib f).dests = some nd.2 := alookup_of_mem hrib.keys hnd
-    have hent : t.entries f nd.1 = nd.2.entries := by unfold Table.entries; rw [hlk]
-    unfold famClause1
-    show (match (famObs t f).loc.find? (fun l => l.net = nd.1) with
-      | some l => checkRanking _ nd.1 (eligibleOf _ m f nd.1 (nd.2.entries.map (dentryOf t.flags))) l.paths l.ecmp true
-      | none => if (eligibleOf _ m f nd.1 (nd.2.entries.map (dentryOf t.flags))).isEmpty then none
-                else some "eligible-path-missing") = none
-    rw [← hent, eligibleOf_obs hinv hnh _ rfl, famObs_loc_find t f hrib nd.1]
-    by_cases he : (t.elig f nd.1).isEmpty = true
-    · simp [he]
-    · have hid : t.destId f nd.1 = some nd.2.id := by unfold Table.destId; rw [hlk]; rfl
-      rw [if_neg he, hid]
-      exact checkRanking_ok hfa nd.1 (t.elig f nd.1) (elig_sorted hinv _ _)
-        (fun e he => (elig_ok hinv ha _ _ e he).1) (fun e he => (elig_ok hinv ha _ _ e he).2) true
-  rw [h1]
-  show firstSome (famClause2 (famObs t f)) (famObs t f).loc = none
-  apply firstSome_none
-  intro l hl
   obtain ⟨nd, hnd, hne, rfl⟩ := famObs_loc_mem t f hl
   have hlk : alookup nd.1 (t.rib f).dests = some nd.2 := alookup_of_mem hrib.keys hnd
   have helig : t.elig f nd.1 = nd.2.entries.filter Entry.eligible := by unfold Table.elig; rw [hlk]
-  have h2 : (lookupNet nd.1 (famObs t f).dests).isNone = false := by
+  have hne' : (t.elig f nd.1).isEmpty = false := by
+    rw [helig]; cases h : nd.2.entries.filter Entry.eligible with
+    | nil => exact absurd h hne
+    | cons _ _ => rfl
+  have h2 : (lookupNet nd.1 (famObs c t f).dests).isNone = false := by
     rw [lookupNet_eq_find, famObs_dests_find t f hrib nd.1, hlk]; rfl
-  have h3 : lookupNet nd.1 (famObs t f).lim2 = some (((t.elig f nd.1).take 2).map (·.lpid)) := by
-    rw [lookupNet_eq_find, famObs_lim2_find t f hrib nd.1]
-    have : (t.elig f nd.1).isEmpty = false := by
-      rw [helig]; cases h : nd.2.entries.filter Entry.eligible with
-      | nil => exact absurd h hne
-      | cons _ _ => rfl
-    simp [this]
-  unfold famClause2
-  show (if (lookupNet nd.1 (famObs t f).dests).isNone = true then some "ineligible-path-selected" else
-    match lookupNet nd.1 (famObs t f).lim2 with
-    | some ids => if ids = (((nd.2.entries.filter Entry.eligible).map Entry.ref).map (·.lpid)).take 2 then none
-                  else some "addpath-list-not-a-prefix"
-    | none => some "addpath-list-not-a-prefix") = none
-  rw [h2, h3, helig]
+  have h3 : lookupNet nd.1 (famObs c t f).lim2 = some (((t.elig f nd.1).take 2).map (·.lpid)) := by
+    rw [lookupNet_eq_find, famObs_lim2_find t f hrib nd.1]; simp [hne']
+  have h4 : lookupNet nd.1 (famObs c t f).lim3 = some (((t.elig f nd.1).take 3).map (·.lpid)) := by
+    rw [lookupNet_eq_find, famObs_lim3_find t f hrib nd.1]; simp [hne']
+  unfold clauseLoc
+  simp only [locOf, h2, h3, h4, Bool.false_eq_true, if_false]
+  rw [helig]
   simp [List.map_take, Entry.ref, Function.comp_def]
 
-theorem checkStep_ok {t : Table} {r : Res} (hinv : Inv c g t) (ha : AttrRefInv c t) {m : NhMap}
+theorem nonEmptyList_optList {β} (l : List β) : optList (nonEmptyList l) = l := by
+  cases l <;> rfl
+
+theorem clauseShown_ok {t : Table} {op : Op} (r : Res) (hinv : Inv c g t) {m : NhMap}
+    (hnh : NhRel t m) (f : Fam) {d : Net × List DEntry} (hd : d ∈ (famObs c t f).dests) :
+    clauseShown { c := c, stale := (stepObs c op (t, r)).stale, llgr := (stepObs c op (t, r)).llgr } m (famObs c t f) d
+      = none := by
+  obtain ⟨_, dst, hlk⟩ := dumpDest_of_mem hinv f hd
+  have hshown : optList (lookupNet d.1 (famObs c t f).nofilt) =
+      ((t.entries f d.1).filter fun e => !e.filtered).map (dentryOf t.flags) := by
+    rw [lookupNet_eq_find, famObs_nofilt_find t f (hinv.rib f) d.1]
+    simp only [Table.entries, hlk, Option.bind_some]
+    exact nonEmptyList_optList _
+  have hrank : (match (famObs c t f).loc.find? (fun l => l.net = d.1) with
+      | some l => l.paths.map fun p => (p.src, p.attr)
+      | none => ([] : List (Nat × Nat))) = (t.elig f d.1).map fun e => (e.src.id, e.attr.id) := by
+    rw [famObs_loc_find t f (hinv.rib f) d.1]
+    have hid : t.destId f d.1 = some dst.id := by unfold Table.destId; rw [hlk]; rfl
+    by_cases he : (t.elig f d.1).isEmpty = true
+    · rw [if_pos he]
+      cases h : t.elig f d.1 with
+      | nil => rfl
+      | cons a l => rw [h] at he; simp at he
+    · rw [if_neg he, hid]
+      simp [locOf, List.map_map, Entry.ref, Function.comp_def]
+  unfold clauseShown
+  show (if (eligibleOf _ m f d.1 (optList (lookupNet d.1 (famObs c t f).nofilt)) ==
+      (match (famObs c t f).loc.find? (fun l => l.net = d.1) with
+        | some l => l.paths.map fun p => (p.src, p.attr)
+        | none => ([] : List (Nat × Nat)))) = true then none else some "api-list-order-differs-from-ranking") = none
+  rw [hshown, hrank, eligibleOf_obs_filter hinv hnh _ rfl, elig_eq_filter, List.filter_filter]
+  have : (t.entries f d.1).filter (fun e => e.eligible && !e.filtered) = (t.entries f d.1).filter Entry.eligible := by
+    apply List.filter_congr
+    intro e _
+    simp only [Entry.eligible]
+    cases e.filtered <;> cases e.nhInv <;> rfl
+  rw [this]
+  simp
+
+theorem isRsClient_ref {e : Entry} (h : c.srcs[e.src.id]? = some e.src) :
+    isRsClient c e.src.id = (e.src.role == .rs) := by
+  simp [isRsClient, h]
+
+theorem addrOfSrc_ref {e : Entry} (h : c.srcs[e.src.id]? = some e.src) : addrOfSrc c e.src.id = e.src.addr := by
+  simp [addrOfSrc, h]
+
+theorem filter_map_dentry (fl : Flags) (q' : DEntry → Bool) (q : Entry → Bool) (es : List Entry)
+    (h : ∀ e ∈ es, q' (dentryOf fl e) = q e) :
+    (es.map (dentryOf fl)).filter q' = (es.filter q).map (dentryOf fl) := by
+  induction es with
+  | nil => rfl
+  | cons e es ih =>
+    simp only [List.map_cons, List.filter_cons, h e List.mem_cons_self]
+    rw [ih (fun a ha => h a (List.mem_cons_of_mem _ ha))]
+    cases q e <;> rfl
+
+theorem find?_eq_head?_filter' {α} (q : α → Bool) (l : List α) : l.find? q = (l.filter q).head? := by
+  induction l with
+  | nil => rfl
+  | cons a l ih =>
+    by_cases h : q a = true
+    · rw [List.find?_cons, List.filter_cons]; simp only [h, if_true, List.head?_cons]
+    · rw [List.find?_cons, List.filter_cons]; simp only [h, if_false]; exact ih
+
+def rsVerdict (x : Ctx) (t2 : Bool) (cands : List (Nat × Nat)) (sh : Option DEntry) : Option String :=
+  match sh with
+  | none => if cands.isEmpty then none else some "rs-local-view-misses-prefix"
+  | some e =>
+      if !cands.contains (e.src, e.attr) then some "rs-local-view-shows-unusable-path"
+      else match x.key t2 e.src e.attr, cands.mapM (fun i => x.key t2 i.1 i.2) with
+        | some k, some cks => if cks.any (fun ck => beats ck k) then some "rs-local-view-best-is-beaten" else none
+        | _, _ => some "unknown-reference"
+
+theorem clauseRsLocal_eq (x : Ctx) (m : NhMap) (fo : FamObs) (peer : Nat) (shown : List (Net × DEntry))
+    (d : Net × List DEntry) :
+    clauseRsLocal x m fo peer shown d =
+      rsVerdict x d.1.t2
+        (eligibleOf x m fo.fam d.1 (d.2.filter fun e => isRsClient x.c e.src && addrOfSrc x.c e.src != peer))
+        (lookupNet d.1 shown) := by
+  unfold clauseRsLocal rsVerdict
+  cases lookupNet d.1 shown <;> rfl
+
+theorem clauseAdjIn_core (x : Ctx) (peer : Nat) (shown : List (Net × List DEntry)) (d : Net × List DEntry)
+    (l1 l2 : List DEntry) (h1 : optList (lookupNet d.1 shown) = l1)
+    (h2 : d.2.filter (fun e => addrOfSrc x.c e.src == peer) = l2) :
+    clauseAdjIn x peer shown d = if l1 = l2 then none else some "adj-in-view-differs" := by
+  subst h1; subst h2; rfl
+
+theorem clauseRsLocal_ok {t : Table} {op : Op} (r : Res) (hinv : Inv c g t) (ha : AttrRefInv c t) {m : NhMap}
+    (hnh : NhRel t m) (f : Fam) {v : Nat × List (Net × DEntry)} (hv : v ∈ (famObs c t f).rsLocal)
+    {d : Net × List DEntry} (hd : d ∈ (famObs c t f).dests) :
+    clauseRsLocal { c := c, stale := (stepObs c op (t, r)).stale, llgr := (stepObs c op (t, r)).llgr } m (famObs c t f)
+      v.1 v.2 d = none := by
+  have hfa := flagsAgree_stepObs c op (t, r)
+  obtain ⟨hent, dst, hlk⟩ := dumpDest_of_mem hinv f hd
+  simp only [famObs, List.mem_map] at hv
+  obtain ⟨a, _, rfl⟩ := hv
+  -- the candidates
+  let q : Entry → Bool := fun e => e.src.role == .rs && !sameAddr a e
+  have hsrc := entries_srcRef hinv f d.1
+  have hfilt : d.2.filter (fun e => isRsClient c e.src && addrOfSrc c e.src != a) =
+      ((t.entries f d.1).filter q).map (dentryOf t.flags) := by
+    rw [hent]
+    apply filter_map_dentry
+    intro e he
+    simp only [dentryOf, isRsClient_ref (hsrc e he), addrOfSrc_ref (hsrc e he), q, sameAddr]
+    cases (e.src.role == Role.rs) <;> simp [bne]
+  have hshown : lookupNet d.1 (viewOf (fun es => (rsLocalOf a es).map fun e =>
+      { dentryOf t.flags e with rpid := 0, filtered := false }) (t.rib f).dests) =
+      (rsLocalOf a (t.entries f d.1)).map fun e => { dentryOf t.flags e with rpid := 0, filtered := false } := by
+    rw [lookupNet_eq_find, viewOf_find _ _ (hinv.rib f).keys]
+    simp only [Table.entries, hlk, Option.bind_some]
+  -- `rsLocalOf` is the head of the ranked list of usable candidates
+  have hrs : rsLocalOf a (t.entries f d.1) = (((t.entries f d.1).filter q).filter Entry.eligible).head? := by
+    unfold rsLocalOf
+    rw [find?_eq_head?_filter', List.filter_filter]
+    congr 1
+    apply List.filter_congr
+    intro e _
+    simp only [q, Bool.and_comm, Bool.and_assoc]
+  have hsub : (((t.entries f d.1).filter q).filter Entry.eligible).Sublist (t.entries f d.1) :=
+    (List.filter_sublist).trans List.filter_sublist
+  have hsorted := (entries_sorted hinv f d.1).sublist hsub
+  have hok : ∀ e ∈ ((t.entries f d.1).filter q).filter Entry.eligible, EntryOk e ∧ EntryRef c e :=
+    fun e he => entries_ok hinv ha f d.1 e (hsub.subset he)
+  have hc : eligibleOf { c := c, stale := (stepObs c op (t, r)).stale, llgr := (stepObs c op (t, r)).llgr } m
+      (famObs c t f).fam d.1 (d.2.filter fun e => isRsClient c e.src && addrOfSrc c e.src != a) =
+      (((t.entries f d.1).filter q).filter Entry.eligible).map fun e => (e.src.id, e.attr.id) := by
+    rw [hfilt]; exact eligibleOf_obs_filter hinv hnh _ rfl f d.1 q
+  rw [clauseRsLocal_eq, hc, hshown, hrs]
+  cases hcands : ((t.entries f d.1).filter q).filter Entry.eligible with
+  | nil => rfl
+  | cons b rest =>
+    rw [hcands] at hsorted hok
+    have hkeyb := ctx_key_eq hfa d.1.t2 (hok b List.mem_cons_self).2
+    have hm := mapM_key hfa d.1.t2 (b :: rest) (fun e he => (hok e he).2)
+    have hnb := head_not_beaten t.flags d.1.t2 hsorted (fun e he => (hok e he).1)
+    simp only [List.map_cons] at hm hnb
+    simp only [rsVerdict, List.head?_cons, Option.map_some, dentryOf, List.map_cons, List.contains_cons, beq_self_eq_true,
+      Bool.true_or, Bool.not_true, Bool.false_eq_true, if_false, hkeyb, hm, hnb]
+
+theorem clauseAdjIn_ok {t : Table} {op : Op} (r : Res) (hinv : Inv c g t) (f : Fam)
+    {v : Nat × List (Net × List DEntry)} (hv : v ∈ (famObs c t f).adjIn)
+    {d : Net × List DEntry} (hd : d ∈ (famObs c t f).dests) :
+    clauseAdjIn { c := c, stale := (stepObs c op (t, r)).stale, llgr := (stepObs c op (t, r)).llgr } v.1 v.2 d = none := by
+  obtain ⟨hent, dst, hlk⟩ := dumpDest_of_mem hinv f hd
+  simp only [famObs, List.mem_map] at hv
+  obtain ⟨a, _, rfl⟩ := hv
+  have hsrc := entries_srcRef hinv f d.1
+  have hfilt : d.2.filter (fun e => addrOfSrc c e.src == a) =
+      ((t.entries f d.1).filter (sameAddr a)).map (dentryOf t.flags) := by
+    rw [hent]
+    apply filter_map_dentry
+    intro e he
+    simp only [dentryOf, addrOfSrc_ref (hsrc e he), sameAddr]
+  have hshown : optList (lookupNet d.1 (viewOf (fun es => nonEmptyList ((es.filter (sameAddr a)).map (dentryOf t.flags)))
+      (t.rib f).dests)) = ((t.entries f d.1).filter (sameAddr a)).map (dentryOf t.flags) := by
+    rw [lookupNet_eq_find, viewOf_find _ _ (hinv.rib f).keys]
+    simp only [Table.entries, hlk, Option.bind_some]
+    exact nonEmptyList_optList _
+  rw [clauseAdjIn_core _ _ _ _ _ _ hshown hfilt]
+  simp
+
+theorem orElse_none {α} (a : Option α) (b : Unit → Option α) (ha : a = none) : a.orElse b = b () := by
+  subst ha; rfl
+
+theorem checkFam_ok {t : Table} {op : Op} (r : Res) (hinv : Inv c g t) (ha : AttrRefInv c t) {m : NhMap}
+    (hnh : NhRel t m) (f : Fam) :
+    checkFam { c := c, stale := (stepObs c op (t, r)).stale, llgr := (stepObs c op (t, r)).llgr } m (famObs c t f) = none := by
+  unfold checkFam
+  rw [orElse_none _ _ (firstSome_none fun d hd => clauseDest_ok r hinv ha hnh f hd),
+    orElse_none _ _ (firstSome_none fun l hl => clauseLoc_ok hinv f hl),
+    orElse_none _ _ (firstSome_none fun d hd => clauseShown_ok r hinv hnh f hd),
+    orElse_none _ _ (firstSome_none fun v hv => firstSome_none fun d hd => clauseRsLocal_ok r hinv ha hnh f hv hd)]
+  exact firstSome_none fun v hv => firstSome_none fun d hd => clauseAdjIn_ok r hinv f hv hd
+
+theorem checkStep_ok {t : Table} {op : Op} {r : Res} (hinv : Inv c g t) (ha : AttrRefInv c t) {m : NhMap}
     (hnh : NhRel t m) (hexact : ∀ ch ∈ r.chs, ch.paths = t.elig ch.fam ch.net) :
-    checkStep c m (stepObs c (t, r)) = none := by
+    checkStep c m (stepObs c op (t, r)) = none := by
   unfold checkStep
-  have h1 : firstSome (checkChange { c := c, stale := (stepObs c (t, r)).stale, llgr := (stepObs c (t, r)).llgr } m
-      (stepObs c (t, r)).fams) (changesOf (stepObs c (t, r)).res) = none := by
+  have h1 : firstSome (checkChange { c := c, stale := (stepObs c op (t, r)).stale, llgr := (stepObs c op (t, r)).llgr } m
+      (stepObs c op (t, r)).fams) (changesOf (stepObs c op (t, r)).res) = none := by
     apply firstSome_none
     intro ch hch
     exact checkChange_ok hinv ha hnh hexact hch
@@ -517,37 +659,49 @@ open SpecC02
 
 /-! ## The reference checker accepts every run -/
 
-theorem attrRefInv_empty (c : Case) : AttrRefInv c {} := by
-  intro f n e he; cases f <;> simp [Table.entries, Table.rib, alookup] at he
-
 theorem nhRel_empty : NhRel {} [] := by
   intro f n e he; cases f <;> simp [Table.entries, Table.rib, alookup] at he
 
-theorem checkSteps_ok (hS : AllSound) {c : Case} {g : Nat → Fam} (p : Profile) (ops : List Op)
+theorem checkSteps_ok (hS : AllSound) (hR : RefSound) {c : Case} {g : Nat → Fam} (p : Profile) (ops : List Op)
     (hg : ∀ op ∈ ops, op.WF c g) (hr : ∀ op ∈ ops, op.AttrRef c)
-    (t : Table) (hinv : Inv c g t) (ha : AttrRefInv c t) (m : NhMap) (hnh : NhRel t m) (i : Nat) :
-    checkSteps c i m ops ((runFrom p t ops).1.map (stepObs c)) = .ok := by
-  induction ops generalizing t m i with
+    (t : Table) (hinv : Inv c g t) (ha : AttrRefInv c t) (m : NhMap) (hnh : NhRel t m)
+    (rs : SpecRef.RefSt) (hrs : RefRel t rs) (i : Nat) :
+    checkSteps c i m rs ops (List.zipWith (stepObs c) ops (runFrom p t ops).1) = .ok := by
+  induction ops generalizing t m rs i with
   | nil => simp [runFrom, checkSteps]
   | cons op ops ih =>
-    obtain ⟨t', r, _, hrun, hinv', hfacts, hE⟩ := run_step hS p ops (hg op List.mem_cons_self) hinv
+    obtain ⟨t', r, hstep, hrun, hinv', hfacts, hE, hX⟩ := run_step hS p ops (hg op List.mem_cons_self) hinv
     rw [hrun]
-    simp only [List.map_cons, checkSteps]
-    have hres : (stepObs c (t', r)).res = r.obs t'.flags := rfl
+    simp only [List.zipWith_cons_cons, checkSteps]
+    have hres : (stepObs c op (t', r)).res = r.obs c.shard t'.flags := rfl
     have ha' := attrRef_step ha (hr op List.mem_cons_self) hE
-    have hnh' : NhRel t' (nhStep m op (stepObs c (t', r)).res) := by rw [hres]; exact nhRel_step t'.flags hnh hE
-    rw [checkStep_ok hinv' ha' hnh' hfacts.exact]
+    have hnh' : NhRel t' (nhStep m op (stepObs c op (t', r)).res) := by
+      rw [hres]; exact nhRel_step c.shard t'.flags hnh hE
+    obtain ⟨hrs', hrc⟩ := hR c g p t op t' r rs (hg op List.mem_cons_self) hinv hinv' hstep hE hX ha ha' hrs
+    rw [hres, hrc]
+    simp only [Option.orElse]
+    rw [← hres, checkStep_ok hinv' ha' hnh' hfacts.exact]
+    rw [hres]
     exact ih (fun o ho => hg o (List.mem_cons_of_mem _ ho)) (fun o ho => hr o (List.mem_cons_of_mem _ ho))
-      t' hinv' ha' _ hnh' (i + 1)
+      t' hinv' ha' _ (by rw [← hres]; exact hnh') _ hrs' (i + 1)
+
+theorem runFrom_length (hS : AllSound) {c : Case} {g : Nat → Fam} (p : Profile) (ops : List Op)
+    (hops : ∀ op ∈ ops, op.WF c g) (t : Table) (hinv : Inv c g t) : (runFrom p t ops).1.length = ops.length := by
+  induction ops generalizing t with
+  | nil => rfl
+  | cons op ops ih =>
+    obtain ⟨t', r, _, hrun, hinv', _, _, _⟩ := run_step hS p ops (hops op List.mem_cons_self) hinv
+    rw [hrun]
+    simp [ih (fun o ho => hops o (List.mem_cons_of_mem _ ho)) t' hinv']
 
 /-- **Master theorem (helper form)**: the C02 reference checker accepts the observation of every run
     of the model on a well-formed case, in both profiles. -/
-theorem check_observe_ok (hS : AllSound) {c : Case} {g : Nat → Fam} (p : Profile) (h : c.Good g) :
+theorem check_observe_ok (hS : AllSound) (hR : RefSound) {c : Case} {g : Nat → Fam} (p : Profile) (h : c.Good g) :
     SpecC02.check c (observe p c) = .ok := by
   unfold SpecC02.check observe run
   simp only
-  rw [checkSteps_ok hS p c.ops h.wf h.attrRef {} (inv_empty c g) (attrRefInv_empty c) [] nhRel_empty 0]
+  rw [checkSteps_ok hS hR p c.ops h.wf h.attrRef {} (inv_empty c g) (attrRefInv_empty c) [] nhRel_empty {} refRel_empty 0]
   rw [runFrom_no_panic hS p c.ops h.wf {} (inv_empty c g)]
-  rfl
+  simp [List.length_zipWith, runFrom_length hS p c.ops h.wf {} (inv_empty c g)]
 
 end Rbgp.Rib
